@@ -3,7 +3,7 @@ From Coq Require Import ZArith Reals List.
 From Dashu Require Import Base.Prelude Float.RoundSpec Float.Contract Float.Model Float.ElemEncl Float.ElemEntry
   Float.ElemEntryProof Float.ElemEnclProof Float.ElemDirected Float.ElemEntryDomain
   Float.AddModel Float.ElemF32 Float.ElemAsis Float.ElemAsisEntry Float.ElemParamsProof Float.ElemPowiProof
-  Float.ElemSubUlp Float.ElemSeriesFuel.
+  Float.ElemSubUlp Float.ElemSeriesFuel Float.ElemExpGuard Float.ElemPowiSharp Float.ElemSeriesErr Float.ElemExpFinal Float.ElemSeriesInst Float.ElemPowiBin1.
 From Coq Require Import QArith Qabs.
 From DashuGen Require Import ElemParams.
 Import ListNotations.
@@ -382,3 +382,249 @@ Example C11_series_fuel_nonvacuous :
     (series_fuel 10 2) false (1 # 3) <> None.
 Proof. exact (conj series_fuel_values series_fuel_partial_nonvacuous). Qed.
 Print Assumptions C11_series_fuel_nonvacuous.
+
+(** ==== deepening round 4 ==== *)
+
+(** ---- finding F06 (repaired): the guard digits of the scaled branch of exp_internal contain the
+    n = 2^(bit_len p / 2) digits consumed by the final powering exp(r)^(B^n), for EVERY precision and
+    base (over the regenerated formulas); the formula of the source before the repair did not, from
+    2048 digits on *)
+Theorem C11_exp_pow_guard_covers_powering : forall (F : Type) (O : f32ops F),
+  (forall x, 0 <= f_to_usize O x) -> forall p B, exp_n_gen O p <= exp_pow_guard_digits_gen O p B.
+Proof. exact @exp_pow_guard_covers_powering. Qed.
+Print Assumptions C11_exp_pow_guard_covers_powering.
+
+Theorem C11_exp_scaled_work_precision_condition : forall (F : Type) (O : f32ops F),
+  (forall x, 0 <= f_to_usize O x) -> forall p B md, 0 <= md ->
+  let sgd := exp_series_guard_digits_gen O p B in
+  let wp := exp_work_precision_scaled_gen O p sgd (exp_pow_guard_digits_gen O p B) md in
+  p + exp_n_gen O p + sgd + md <= wp /\ p + exp_n_gen O p + 2 + md <= wp.
+Proof. exact @exp_scaled_work_precision_condition. Qed.
+Print Assumptions C11_exp_scaled_work_precision_condition.
+
+Theorem C11_exp_pow_guard_before_fix_refuted :
+  pow_guard_before_fix_ub 2048 1 + (11 + 2) < 1 * 2 ^ (bit_len 2048 / 2) /\
+  pow_guard_before_fix_ub 2048 2 + (7 + 2) < 1 * 2 ^ (bit_len 2048 / 2) /\
+  pow_guard_before_fix_ub 8192 4 + (3 + 2) < 1 * 2 ^ (bit_len 8192 / 2) /\
+  1 * 2 ^ (bit_len 2047 / 2) <= pow_guard_before_fix_ub 2047 1 + (10 + 2).
+Proof. exact pow_guard_before_fix_refuted. Qed.
+Print Assumptions C11_exp_pow_guard_before_fix_refuted.
+
+(** ---- Context::powi: the sharper count of roundings (n-1 instead of 2n-3) closes base 2 at p = 2, 3 *)
+Theorem C11_powi_sharp_invariant_means : forall B wp m s e j res,
+  Inv1 B wp m s e j res <->
+  (dlen B (approx_sig res) <= 2 * wp /\
+   (is_exact res = true -> aval B res = (fval B s e ^ Z.to_nat j)%R) /\
+   (is_half_mode m = true ->
+      RA (/ IZR (2 * B ^ (wp - 1))) (Z.to_nat (j - 1)) (fval B s e ^ Z.to_nat j) (aval B res))).
+Proof. intros. apply iff_refl. Qed.
+Print Assumptions C11_powi_sharp_invariant_means.
+
+Theorem C11_powi_loop_rel_error_sharp : forall B, 2 <= B -> forall wp, 1 <= wp -> forall m s e,
+  dlen B s <= 2 * wp -> forall n, 2 <= n ->
+  Inv1 B wp m s e n (powi_loop B wp m s e n (Z.to_nat (bit_len n - 2)) (c_sqr B wp m s e)).
+Proof. exact powi_loop_result1. Qed.
+Print Assumptions C11_powi_loop_rel_error_sharp.
+
+Theorem C11_powi_guard_digits_suffice_sharp : forall B, 2 <= B -> forall p n, 1 <= p -> 2 <= n -> 3 <= B \/ 2 <= p ->
+  (n - 1) * (2 * B ^ p + 1) <= 2 * B ^ (powi_work_precision p n - 1).
+Proof. exact powi_guard_condition1. Qed.
+Print Assumptions C11_powi_guard_digits_suffice_sharp.
+
+Theorem C11_powi_asis_nearest_1ulp_sharp : forall B, 2 <= B -> forall p m s e n,
+  1 <= p -> 2 <= n -> s <> 0 -> is_half_mode m = true -> 3 <= B \/ 2 <= p ->
+  dlen B s <= 2 * powi_work_precision p n ->
+  exists a, powi_asis B p m s e n = Ok a /\
+    Accepted B p (powerRZ (fval B s e) n) (aval B a) (is_exact a).
+Proof. exact powi_asis_nearest1. Qed.
+Print Assumptions C11_powi_asis_nearest_1ulp_sharp.
+
+Theorem C11_powi_asis_nearest_every_exponent_sharp : forall B, 2 <= B -> forall p m s e n,
+  1 <= p -> s <> 0 -> is_half_mode m = true -> 2 <= p \/ 5 <= B -> dlen B s <= 2 * p ->
+  exists a, powi_asis B p m s e n = Ok a /\
+    Accepted B p (powerRZ (fval B s e) n) (aval B a) (is_exact a).
+Proof. exact powi_asis_nearest_every_exponent1. Qed.
+Print Assumptions C11_powi_asis_nearest_every_exponent_sharp.
+
+Example C11_powi_sharp_nonvacuous :
+  (exists a, powi_asis 2 2 MHalfEven 3 (-1) 1000001 = Ok a /\
+     Accepted 2 2 (powerRZ (fval 2 3 (-1)) 1000001) (aval 2 a) (is_exact a)) /\
+  (exists a, powi_asis 2 3 MHalfAway (-5) 0 (-77) = Ok a /\
+     Accepted 2 3 (powerRZ (fval 2 (-5) 0) (-77)) (aval 2 a) (is_exact a)).
+Proof. exact powi_asis_nearest1_example. Qed.
+Print Assumptions C11_powi_sharp_nonvacuous.
+
+(** ---- open finding F07: operands longer than twice the working precision *)
+Theorem C11_powi_overlong_refuted :
+  powi_asis 10 1 MHalfEven 100000001 0 2 = Ok (AExact 1 16) /\
+  2 * powi_work_precision 1 2 < dlen 10 100000001 /\
+  100000001 ^ 2 <> 1 * 10 ^ 16.
+Proof. exact powi_overlong_refuted. Qed.
+Print Assumptions C11_powi_overlong_refuted.
+
+Theorem C11_powi_exact_flag_outside_overlong : forall B, 2 <= B -> forall p m s e n, 1 <= p -> 0 <= n ->
+  powi_overlong B p s n = false ->
+  is_exact (powi_pos B p m s e n) = true -> aval B (powi_pos B p m s e n) = powerRZ (fval B s e) n.
+Proof. exact powi_exact_flag_outside_overlong. Qed.
+Print Assumptions C11_powi_exact_flag_outside_overlong.
+
+(** ---- the Maclaurin loop of exp_internal (scaled branch, reduced argument rho >= 0), real analysis:
+    states reachable by a loop whose operations round with relative error <= u *)
+Theorem C11_exp_trace_means : forall u rho k pw sm,
+  ExpTrace u rho k pw sm <->
+  ((exists th, (Rabs (th - 1) <= u)%R /\ k = 1%nat /\ pw = rho /\ sm = ((1 + rho) * th)%R) \/
+   (exists k0 pw0 sm0 th1 th2 th3, ExpTrace u rho k0 pw0 sm0 /\
+      (Rabs (th1 - 1) <= u)%R /\ (Rabs (th2 - 1) <= u)%R /\ (Rabs (th3 - 1) <= u)%R /\
+      k = S k0 /\ pw = (pw0 * rho * th1)%R /\
+      sm = ((sm0 + pw0 * rho * th1 / INR (fact (S k0)) * th2) * th3)%R)).
+Proof. exact ExpTrace_means. Qed.
+Print Assumptions C11_exp_trace_means.
+
+Theorem C11_exp_series_partial_sum_error : forall u, (0 <= u)%R -> (u <= 1)%R -> forall rho k pw sm,
+  (0 <= rho)%R -> ExpTrace u rho k pw sm ->
+  (1 <= k)%nat /\ RA u (k - 1) (rho ^ k) pw /\ RA u (S k) (Tn rho k) sm.
+Proof. exact exp_trace_RA. Qed.
+Print Assumptions C11_exp_series_partial_sum_error.
+
+Theorem C11_exp_series_tail : forall x K, (0 <= x <= / 2)%R ->
+  (Tn x K <= exp x <= Tn x K + 2 * eterm x (S K))%R.
+Proof. exact exp_tail. Qed.
+Print Assumptions C11_exp_series_tail.
+
+Theorem C11_exp_series_error : forall u, (0 <= u)%R -> (u <= 1)%R -> forall rho K pw sm th1 th2 thr,
+  (0 <= rho <= / 2)%R -> ExpTrace u rho K pw sm ->
+  (Rabs (th1 - 1) <= u)%R -> (Rabs (th2 - 1) <= u)%R ->
+  (Rabs (next_increase rho pw K th1 th2) <= thr)%R -> (INR (S K) * u < 1)%R ->
+  (Rabs (sm - exp rho) * (1 - INR (S K) * u) <= exp rho * (INR (S K) * u) + 2 * thr)%R.
+Proof. exact exp_series_error. Qed.
+Print Assumptions C11_exp_series_error.
+
+Example C11_exp_series_error_nonvacuous :
+  ExpTrace (/ 8) (/ 4) 1 (/ 4) ((1 + / 4) * 1) /\
+  (Rabs (next_increase (/ 4) (/ 4) 1 1 1) <= 1)%R /\ (INR 2 * / 8 < 1)%R.
+Proof. exact exp_series_error_example. Qed.
+Print Assumptions C11_exp_series_error_nonvacuous.
+
+(** ---- argument reduction, recombination, last rounding of exp (real values of the quantities of the model) *)
+Theorem C11_exp_reduction_identity : forall B, 2 <= B -> forall q x' L r0, x' = (IZR q * L + r0)%R ->
+  exp x' = (bpw B q * exp r0 * exp (IZR q * (L - ln (IZR B))))%R.
+Proof. exact exp_reduction_identity. Qed.
+Print Assumptions C11_exp_reduction_identity.
+
+Theorem C11_exp_reduced_argument_error : forall B q L eL, (Rabs (L - ln (IZR B)) <= eL)%R ->
+  (exp (- (Rabs (IZR q) * eL)) <= exp (IZR q * (L - ln (IZR B))) <= exp (Rabs (IZR q) * eL))%R.
+Proof. exact exp_reduced_argument_error. Qed.
+Print Assumptions C11_exp_reduced_argument_error.
+
+Theorem C11_exp_recombination_identity : forall B, 2 <= B -> forall q (N : nat) x x' L r0 r rho ths thp sum v,
+  x' = (IZR q * L + r0)%R -> (rho * INR N)%R = r -> sum = (exp rho * ths)%R -> v = (sum ^ N * thp)%R ->
+  v = (exp x * bpw B (- q) * (exp ((x' - x) - IZR q * (L - ln (IZR B)) + (r - r0)) * ths ^ N * thp))%R.
+Proof. exact exp_compose_identity. Qed.
+Print Assumptions C11_exp_recombination_identity.
+
+Theorem C11_exp_nearest_1ulp_partial : forall B, 2 <= B ->
+  forall p m sv ev q (N : nat) x x' L r0 r rho ths thp sum a es dp d,
+  1 <= p -> is_half_mode m = true ->
+  x' = (IZR q * L + r0)%R -> (rho * INR N)%R = r ->
+  sum = (exp rho * ths)%R -> fval B sv ev = (sum ^ N * thp)%R ->
+  (Rabs ((x' - x) - IZR q * (L - ln (IZR B)) + (r - r0)) <= a)%R -> (Rabs (ths - 1) <= es)%R -> (es <= 1)%R ->
+  (Rabs (thp - 1) <= dp)%R -> (dp <= 1)%R ->
+  (0 <= d)%R -> (1 - d <= exp (- a) * (1 - es) ^ N * (1 - dp))%R -> (exp a * (1 + es) ^ N * (1 + dp) <= 1 + d)%R ->
+  (2 * d * IZR (B ^ p) <= 1)%R ->
+  let res := c_repr_round B p m sv ev in
+  let '(s', e') := shl_val (approx_sig res) (approx_exp res) q in
+  exists E, (bpw B E <= Rabs (exp x))%R /\ (Rabs (fval B s' e' - exp x) < bpw B (E - p + 1))%R.
+Proof. exact exp_nearest_1ulp_partial. Qed.
+Print Assumptions C11_exp_nearest_1ulp_partial.
+
+Example C11_exp_nearest_1ulp_partial_nonvacuous :
+  let res := c_repr_round 10 3 MHalfEven 1 0 in
+  let '(s', e') := shl_val (approx_sig res) (approx_exp res) 0 in
+  exists E, (bpw 10 E <= Rabs (exp 0))%R /\ (Rabs (fval 10 s' e' - exp 0) < bpw 10 (E - 3 + 1))%R.
+Proof. exact exp_nearest_1ulp_partial_example. Qed.
+Print Assumptions C11_exp_nearest_1ulp_partial_nonvacuous.
+
+(** ---- the Z-level operations of the as-is model are instances (nearest modes) *)
+Theorem C11_fbv_uP_mean : forall B x P, fbv B x = fval B (fsig x) (fexp x) /\ uP B P = (/ IZR (2 * B ^ (P - 1)))%R.
+Proof. intros. split; reflexivity. Qed.
+Print Assumptions C11_fbv_uP_mean.
+
+Theorem C11_fb_mul_rel : forall B, 2 <= B -> forall m x y, is_half_mode m = true -> 1 <= ctx_max (fprec x) (fprec y) ->
+  exists th : R, fbv B (fb_mul B m x y) = (fbv B x * fbv B y * th)%R /\
+                 (Rabs (th - 1) <= uP B (ctx_max (fprec x) (fprec y)))%R.
+Proof. exact fb_mul_rel. Qed.
+Print Assumptions C11_fb_mul_rel.
+
+Theorem C11_fb_div_rel : forall B, 2 <= B -> forall m x y, is_half_mode m = true ->
+  1 <= ctx_max (fprec x) (fprec y) -> fsig y <> 0 ->
+  exists z, fb_div B m x y = Ok z /\
+    exists th : R, fbv B z = (fbv B x / fbv B y * th)%R /\ (Rabs (th - 1) <= uP B (ctx_max (fprec x) (fprec y)))%R.
+Proof. exact fb_div_rel. Qed.
+Print Assumptions C11_fb_div_rel.
+
+Theorem C11_fb_div_rem_euclid_exact : forall B, 2 <= B -> forall m x y, is_half_mode m = true ->
+  1 <= ctx_max (fprec x) (fprec y) -> 0 < fsig y ->
+  exists q rf, fb_div_rem_euclid B m x y = Ok (q, rf) /\
+    exists r0 th : R, fbv B x = (IZR q * fbv B y + r0)%R /\ (0 <= r0 < fbv B y)%R /\
+      fbv B rf = (r0 * th)%R /\ (Rabs (th - 1) <= uP B (ctx_max (fprec x) (fprec y)))%R.
+Proof. exact fb_div_rem_euclid_spec. Qed.
+Print Assumptions C11_fb_div_rem_euclid_exact.
+
+Theorem C11_exact_operations : forall B, 2 <= B -> forall n x k,
+  fbv B (fb_from_int B n) = IZR n /\ fbv B (fb_shr x k) = (fbv B x * bpw B (- k))%R.
+Proof. exact exact_operations. Qed.
+Print Assumptions C11_exact_operations.
+
+Theorem C11_exp_series_step_is_trace_step : forall B, 2 <= B -> forall m P r sum pow k,
+  is_half_mode m = true -> 1 <= P -> P <= fprec r -> P <= fprec pow ->
+  ExpTrace (uP B P) (fbv B r) k (fbv B pow) (fbv B sum) ->
+  let pow' := fb_mul B m pow r in
+  exists inc, fb_div B m pow' (fb_from_int B (Z.of_nat (fact (S k)))) = Ok inc /\
+    exists th1 th2 : R, (Rabs (th1 - 1) <= uP B P)%R /\ (Rabs (th2 - 1) <= uP B P)%R /\
+      fbv B pow' = (fbv B pow * fbv B r * th1)%R /\
+      fbv B inc = next_increase (fbv B r) (fbv B pow) k th1 th2 /\
+      (forall sum' th3, (Rabs (th3 - 1) <= uP B P)%R -> fbv B sum' = ((fbv B sum + fbv B inc) * th3)%R ->
+         ExpTrace (uP B P) (fbv B r) (S k) (fbv B pow') (fbv B sum')).
+Proof. exact exp_series_step_trace. Qed.
+Print Assumptions C11_exp_series_step_is_trace_step.
+
+Example C11_instances_nonvacuous :
+  (exists th : R, fbv 10 (fb_mul 10 MHalfEven (FB 12345 (-4) 3) (FB 678 0 3)) = (fbv 10 (FB 12345 (-4) 3) * fbv 10 (FB 678 0 3) * th)%R /\
+                  (Rabs (th - 1) <= uP 10 3)%R) /\
+  (exists q rf, fb_div_rem_euclid 10 MHalfAway (FB 12345 (-2) 5) (FB 2303 (-3) 4) = Ok (q, rf) /\
+    exists r0 th : R, fbv 10 (FB 12345 (-2) 5) = (IZR q * fbv 10 (FB 2303 (-3) 4) + r0)%R /\ (0 <= r0 < fbv 10 (FB 2303 (-3) 4))%R /\
+      fbv 10 rf = (r0 * th)%R /\ (Rabs (th - 1) <= uP 10 5)%R).
+Proof. exact instances_example. Qed.
+Print Assumptions C11_instances_nonvacuous.
+
+(** ---- Context::powi at one digit: base 2 (one-bit results are powers of two: separate argument), negative
+    exponents in every base >= 3; and the whole region of the theorem *)
+Theorem C11_powi_asis_nearest_base2_one_bit : forall m s e n, 2 <= n -> s <> 0 -> is_half_mode m = true ->
+  dlen 2 s <= 2 * powi_work_precision 1 n ->
+  exists a, powi_asis 2 1 m s e n = Ok a /\
+    Accepted 2 1 (powerRZ (fval 2 s e) n) (aval 2 a) (is_exact a).
+Proof. exact powi_asis_nearest_bin1. Qed.
+Print Assumptions C11_powi_asis_nearest_base2_one_bit.
+
+Theorem C11_powi_asis_negative_one_digit : forall B, 3 <= B -> forall m s e n, n < 0 -> s <> 0 -> is_half_mode m = true ->
+  dlen B s <= 2 * powi_work_precision (powi_neg_precision_gen no_f32 1 (powi_neg_guard_bits_gen no_f32 1)) (- n) ->
+  exists a, powi_asis B 1 m s e n = Ok a /\
+    Accepted B 1 (powerRZ (fval B s e) n) (aval B a) (is_exact a).
+Proof. exact powi_asis_neg_nearest_one_digit. Qed.
+Print Assumptions C11_powi_asis_negative_one_digit.
+
+Theorem C11_powi_asis_nearest_all : forall B, 2 <= B -> forall p m s e n,
+  1 <= p -> s <> 0 -> is_half_mode m = true -> dlen B s <= 2 * p ->
+  ~ (B = 2 /\ p = 1 /\ n < 0) ->
+  exists a, powi_asis B p m s e n = Ok a /\
+    Accepted B p (powerRZ (fval B s e) n) (aval B a) (is_exact a).
+Proof. exact powi_asis_nearest_all. Qed.
+Print Assumptions C11_powi_asis_nearest_all.
+
+Example C11_powi_asis_nearest_all_nonvacuous :
+  (exists a, powi_asis 2 1 MHalfEven 3 0 1000003 = Ok a /\
+     Accepted 2 1 (powerRZ (fval 2 3 0) 1000003) (aval 2 a) (is_exact a)) /\
+  (exists a, powi_asis 3 1 MHalfAway 7 (-1) (-5) = Ok a /\
+     Accepted 3 1 (powerRZ (fval 3 7 (-1)) (-5)) (aval 3 a) (is_exact a)).
+Proof. exact powi_asis_nearest_all_example. Qed.
+Print Assumptions C11_powi_asis_nearest_all_nonvacuous.
